@@ -1154,9 +1154,27 @@ static int parse_container(struct scanner_s *scanner, cif_container_tp *containe
                         /* check for dupes */
                         result = ((container == NULL) ? CIF_NOSUCH_ITEM
                                 : cif_container_get_item_loop(container, name, NULL));
+                        if ((result == CIF_NOSUCH_ITEM) && (container != NULL)) {
+                            /* that is also the answer for a name that cannot be a data name at all */
+                            result = cif_normalize_item_name(name, -1, NULL, CIF_INVALID_ITEMNAME);
+                            if (result == CIF_OK) {
+                                result = CIF_NOSUCH_ITEM;
+                            }
+                        }
 
                         if (result == CIF_NOSUCH_ITEM) {
                             result = parse_item(scanner, container, name);
+                        } else if (result == CIF_INVALID_ITEMNAME) {
+                            /* error: invalid data name */
+                            result = scanner->error_callback(CIF_INVALID_ITEMNAME, scanner->line,
+                                    scanner->column - TVALUE_LENGTH(scanner), TVALUE_START(scanner),
+                                    TVALUE_LENGTH(scanner), scanner->user_data);
+                            if (result != CIF_OK) {
+                                free(name);
+                                goto container_end;
+                            }
+                            /* recover by rejecting the item (but still parsing the associated value) */
+                            result = parse_item(scanner, container, NULL);
                         } else if (result == CIF_OK) {
                             /* error: duplicate data name */
                             result = scanner->error_callback(CIF_DUP_ITEMNAME, scanner->line,
@@ -1490,11 +1508,12 @@ static int parse_loop(struct scanner_s *scanner, cif_container_tp *container) {
 /*
  * Determines whether the name carried by list element 'last' duplicates, in the sense of CIF name equivalence, any of
  * the names carried by the elements that precede it in the list starting at 'head'.  Returns CIF_OK if so,
- * CIF_NOSUCH_ITEM if not, or an error code if the comparison cannot be performed.
+ * CIF_NOSUCH_ITEM if not, CIF_INVALID_ITEMNAME if it is not a valid data name in the first place, or another error
+ * code if the comparison cannot be performed.
  */
 static int find_header_name(string_element_tp *head, string_element_tp *last) {
     UChar *name_norm;
-    int result = cif_normalize_item_name(last->string, -1, &name_norm, CIF_NOSUCH_ITEM);
+    int result = cif_normalize_item_name(last->string, -1, &name_norm, CIF_INVALID_ITEMNAME);
 
     if (result == CIF_OK) {
         result = CIF_NOSUCH_ITEM;
@@ -1557,9 +1576,10 @@ static int parse_loop_header(struct scanner_s *scanner, cif_container_tp *contai
                     case CIF_NOSUCH_ITEM:
                         /* the expected case */
                         break;
+                    case CIF_INVALID_ITEMNAME:
                     case CIF_OK:
-                        /* error: duplicate item name */
-                        if ((result = scanner->error_callback(CIF_DUP_ITEMNAME, scanner->line,
+                        /* error: invalid or duplicate item name */
+                        if ((result = scanner->error_callback(((result == CIF_OK) ? CIF_DUP_ITEMNAME : result), scanner->line,
                                 scanner->column - TVALUE_LENGTH(scanner), TVALUE_START(scanner),
                                 TVALUE_LENGTH(scanner), scanner->user_data)) == CIF_OK) {
                             /* recover by ignoring the name, and later its associated values in the loop body */
